@@ -46,6 +46,8 @@ def callee_source(nparams, last, ret, sep=', '):
     # globals with the parameters' names: a missing parameter is null in the call, it must never fall through to these
     head = "p1 = 'G1'\np2 = 'G2'\np3 = 'G3'\n" + 'function ff(' + sep.join(ps) + ('...' if last and nparams else '') + '):'
     body = ["    systemLog('ff:' + jsonStringify(arrayNew(" + ', '.join(ps) + ')))']
+    if ps:
+        body.append("    systemLog('ty:' + " + " + ',' + ".join(f'systemType({p_})' for p_ in ps) + ')')
     body.append('    return ' + ret)
     return [head] + body + ['endfunction']
 
@@ -69,22 +71,29 @@ def _convention_case(nparams, last, nargs, path):
     def log_of(actual):
         return 'ff:' + rv.json_text(bind(nparams, last and nparams > 0, actual))
 
+    def logs_of(actual):
+        bound = bind(nparams, last and nparams > 0, actual)
+        out = [log_of(actual)]
+        if bound:
+            out.append('ty:' + ','.join(rv.rtype(v) for v in bound))
+        return out
+
     if path == 'direct':
         src = callee_source(nparams, last, ret_array, _SEP) + [f'return ff({arg_text})']
-        return src, [log_of(args)], bind(nparams, last and nparams > 0, args)
+        return src, logs_of(args), bind(nparams, last and nparams > 0, args)
     if path == 'variable':
         src = callee_source(nparams, last, ret_array, _SEP) + ['gf = ff', f'return gf({arg_text})']
-        return src, [log_of(args)], bind(nparams, last and nparams > 0, args)
+        return src, logs_of(args), bind(nparams, last and nparams > 0, args)
     if path in ('partial1', 'partial2'):
         bound = [101] if path == 'partial1' else [101, 102]
         src = callee_source(nparams, last, ret_array, _SEP) + [f'pf = systemPartial(ff, {", ".join(map(str, bound))})', f'return pf({arg_text})']
         actual = bound + args
-        return src, [log_of(actual)], bind(nparams, last and nparams > 0, actual)
+        return src, logs_of(actual), bind(nparams, last and nparams > 0, actual)
     if path == 'partial-of-partial':
         # systemPartial(systemPartial(ff, 101), 102, 103)(args): bound arguments accumulate left to right
         src = callee_source(nparams, last, ret_array, _SEP) + ['pf = systemPartial(systemPartial(ff, 101), 102, 103)', f'return pf({arg_text})']
         actual = [101, 102, 103] + args
-        return src, [log_of(actual)], bind(nparams, last and nparams > 0, actual)
+        return src, logs_of(actual), bind(nparams, last and nparams > 0, actual)
     if path == 'indexof':
         # predicate called with one argument per element until the result is truthy (a non-empty array)
         elems = [7, 8]
@@ -92,7 +101,7 @@ def _convention_case(nparams, last, nargs, path):
         logs = []
         result = -1
         for i, e in enumerate(elems):
-            logs.append(log_of([e]))
+            logs.extend(logs_of([e]))
             if len(bind(nparams, last and nparams > 0, [e])) > 0:
                 result = i
                 break
@@ -100,16 +109,16 @@ def _convention_case(nparams, last, nargs, path):
     if path == 'sort':
         # comparator called with two arguments; which pairs and how often is the sort algorithm's business
         src = callee_source(nparams, last, '0', _SEP) + ['arraySort(arrayNew(2, 1), ff)', "return 'done'"]
-        return src, ('each', [log_of([2, 1]), log_of([1, 2])]), 'done'
+        return src, ('each', logs_of([2, 1]) + logs_of([1, 2])), 'done'
     if path == 'nested':
         src = callee_source(nparams, last, ret_array, _SEP) + ['function outer(p1):', f'    return ff({arg_text})', 'endfunction', 'return outer(999)']
-        return src, [log_of(args)], bind(nparams, last and nparams > 0, args)
+        return src, logs_of(args), bind(nparams, last and nparams > 0, args)
     if path == 'datafilter':
         inner = ', '.join(['a'] + [str(a) for a in args])
         src = callee_source(nparams, last, ret_array, _SEP) + [f"dd = dataFilter(arrayNew(objectNew('a', 5)), 'ff({inner})')", 'return arrayLength(dd)']
         actual = [5] + args
         keep = len(bind(nparams, last and nparams > 0, actual)) > 0
-        return src, [log_of(actual)], 1 if keep else 0
+        return src, logs_of(actual), 1 if keep else 0
     raise ValueError(path)
 
 
@@ -580,6 +589,51 @@ def check_host(case, acc):
     acc.outcome((case['mask'], pname, repr(glob.get('rr'))[:30]))
 
 
+def check_host_each(case, acc):
+    """The host supplies exactly ONE library name (every name in turn): it is kept, every other library name is bound."""
+    bs = load_impl()
+    from bare_script.library import SCRIPT_FUNCTIONS  # pylint: disable=import-outside-toplevel,import-error
+    names = sorted(SCRIPT_FUNCTIONS)
+    name = names[case['i']]
+    mine = host_value('zz', case['kind'])
+    glob = {name: mine}
+    acc.evals += 1
+    acc.states += 1
+    acc.transitions += 1
+    acc.traces += 1
+    c2 = dict(case, name=name)
+    try:
+        res = bs.execute_script(bs.parse_script("rr = arrayLength(arrayNew(1, 2)) + mathAbs(0 - 1)\nreturn rr\n"), {'globals': glob})
+    except bs.BareScriptRuntimeError as exc:
+        if name in ('arrayLength', 'arrayNew', 'mathAbs') and case['kind'] == 1 and 'Undefined function' in str(exc):
+            res = 'undefined'
+        else:
+            acc.violation(c2, 'completes', str(exc), 'a library function is missing although the host supplied only one other name')
+            return
+    except Exception as exc:  # pylint: disable=broad-exception-caught
+        acc.violation(c2, 'completes', (type(exc).__name__, str(exc)[:200]), 'host exception')
+        return
+    if name not in glob or glob[name] is not mine:
+        acc.violation(c2, 'the host binding kept', canon(glob.get(name)), 'the library overwrote the name the caller supplied')
+    for n, f in SCRIPT_FUNCTIONS.items():
+        if n != name and glob.get(n) is not f:
+            acc.violation(c2, f'{n} bound to the library function', canon(glob.get(n)), 'library name missing although the host supplied only another name')
+            break
+    if name not in ('arrayLength', 'arrayNew', 'mathAbs') and canon(res) != canon(3):
+        acc.violation(c2, 3, canon(res), 'library functions not callable')
+    acc.nontrivial += 1
+    acc.outcome((name[:3], repr(res)[:20]))
+
+
+def fam_host_each(arg):
+    acc = Acc('host_each')
+    for case in arg:
+        acc.cases += 1
+        check_host_each(case, acc)
+    acc.sample(arg[0])
+    return acc.result()
+
+
 def fam_host(arg):
     acc = Acc('host')
     for case in arg:
@@ -598,6 +652,8 @@ def families(tier):
              [names.index('def setg'), names.index('rr=setg()')], [names.index("systemGlobalSet('y',3)"), names.index('def rd')]]
     if tier == 'thorough':
         seeds += [[i] for i in range(len(evs))]
+    from bare_script.library import SCRIPT_FUNCTIONS  # pylint: disable=import-outside-toplevel,import-error
+    each = [{'i': i, 'kind': k} for k in (0, 1) for i in range(len(SCRIPT_FUNCTIONS))]
     hlen = 3 if tier == 'quick' else 4
     hshards = [(length, [f]) for length in range(1, hlen + 1) for f in range(len(evs))]
     hosts = [{'mask': m, 'p': p, 'kind': k} for k in (0, 1) for m in range(1 << len(HOST_NAMES)) for p in range(len(HOST_PROGRAMS)) if k == 0 or m]
@@ -605,11 +661,12 @@ def families(tier):
         Family('convention', fam_convention, split(cc, 16), 'parameters 0..3 x "..." x arguments 0..5 x 9 call paths (+ header spellings)', expected=len(cc)),
         Family('scoping', fam_scoping, [[s] for s in seeds], f'BFS to fixpoint over {len(evs)} events from {len(seeds)} seed states (each shard a full search)', expected=len(seeds)),
         Family('histories', fam_histories, hshards, f'every event history of length <= {hlen} over the {len(evs)} events from the empty state, stepwise compared, without state merging', expected=sum(len(evs) ** k for k in range(1, hlen + 1))),
+        Family('host_each', fam_host_each, split(each, 8), 'the host supplies exactly one library name - every library name in turn, bound to a host function and bound to null', expected=len(each)),
         Family('host', fam_host, split(hosts, 8), 'every subset of host-supplied names {arrayLength, mathAbs, abs, x} (bound to tagged host objects, and bound to null) x 8 programs', expected=len(hosts)),
     ]
 
 
-_CHECKS = {'convention': check_convention, 'scoping': check_scoping, 'host': check_host, 'histories': check_history}
+_CHECKS = {'host_each': check_host_each, 'convention': check_convention, 'scoping': check_scoping, 'host': check_host, 'histories': check_history}
 
 
 def replay(family, case):
